@@ -22,7 +22,7 @@ ID = 'C10'
 PROFILES = ['dev', 'release']
 REPLAY_PROFILES = ['dev', 'release']
 BUDGET = 40
-TIME_LIMIT = {'quick': 300, 'thorough': 1500}
+TIME_LIMIT = {'quick': 600, 'thorough': 1500}
 
 def jobs(tier, seed, report):
     nmax = 6 if tier == 'quick' else 9
